@@ -8,7 +8,7 @@ oracle: the property predicate evaluated on the real class's observations (this 
         construction counting and injected failures (harness.cpp)"""
 import os
 
-GEN = ['gen_vertices.json', 'gen_ceil.json']
+GEN = ['gen_vertices.json', 'gen_ceil.json', 'gen_list.json']
 M64 = (1 << 64) - 1
 # type index -> (size, alignment); harness.cpp checks sizeof / ItemTraits::GetAlignment / alignof against this table
 TYPES = {0: (1, 1), 1: (2, 2), 2: (4, 4), 3: (8, 8), 4: (3, 1), 5: (6, 2), 6: (12, 4), 7: (16, 16), 8: (16, 16),
@@ -318,6 +318,12 @@ class CaseGen:
                 out.append('c %d %d' % (v, m))
         for _ in range(300 * scale):
             out.append('c %d %d' % (r.below(1 << r.range(1, 62)), r.choice([1, 2, 4, 8, 16])))
+        # the real pvGetOffset on arbitrary non-zero addends (wrap-around sums included): p L codeParam code addend1 addend2
+        big = [1, 2, 1 << 63, (1 << 63) + 8, (1 << 64) - 1, (1 << 64) - 8, (1 << 32), 12345]
+        for _ in range(250 * scale):
+            a1 = r.choice(big) if r.below(2) else r.next() | 1
+            a2 = r.choice(big) if r.below(2) else r.next() | 1
+            out.append('p %d %d %d %d %d' % (r.choice([4, 8]), r.below(256), r.choice([r.next(), r.below(4096)]), a1, a2))
         return out
 
 
@@ -478,6 +484,9 @@ def check_unit(case, out):
             L = int(w[1]); v1, v2 = map(int, out.split())
             if not (0 <= v1 < (1 << L) and 0 <= v2 < (1 << L) and v1 != v2):
                 return 'GetVertices(%s, %s) for logVertexCount %d gives %d, %d' % (w[2], w[3], L, v1, v2)
+        elif w[0] == 'p':
+            if int(out) != (int(w[4]) + int(w[5])) % (1 << 64):
+                return 'pvGetOffset with addends %s, %s returns %s' % (w[4], w[5], out)
         elif w[0] == 'c':
             v, m = int(w[1]), int(w[2]); c = int(out)
             if v + m < (1 << 64) and not (v <= c < v + m and c % m == 0):
@@ -504,7 +513,7 @@ def replay(ctx, rp):
     path = os.path.join(ctx.build, 'replay.cases'); open(path, 'w').write(case + '\n')
     rc, lines, err = ctx.run_lines([harness], path)
     out = lines[0] if lines else '<crash> ' + err[-300:]
-    bad = check_unit(case, out) if case.split()[0] in ('v', 'c') else check_case(case, out)[0]
+    bad = check_unit(case, out) if case.split()[0] in ('v', 'c', 'p') else check_case(case, out)[0]
     print('case:', case, '\nimplementation:', out)
     if rp.get('model') is not None and rp.get('model') != out:
         print('model       :', rp['model']); bad = bad or 'model and implementation disagree'
@@ -649,7 +658,7 @@ def run(ctx):
             'max_columns_reached_per_logVertexCount': {}, 'code_kind': {'string-hash (DataColumn(name))': 0, 'explicit 64-bit': 0, 'member offset (DataColumnCodeOffset)': 0},
             'histories_with_instrumented_items': 0, 'row_failure_scenarios_compared_with_L2_model': 0}
     for (c, out) in results:
-        if c.split()[0] in ('v', 'c'):
+        if c.split()[0] in ('v', 'c', 'p'):
             why = check_unit(c, out)
         elif out.startswith('<harness died'):
             why = out
